@@ -613,7 +613,12 @@ def gen_rel_path(rs) -> str:
     if depth and rs.random() < 0.08:
         # a ".." segment that does not leave the directory it is under: a
         # path keeps the spelling it was given ("a/../b.wav" is not "b.wav")
-        parts.insert(rs.randint(1, depth), "..")
+        # ("aud/.." is never written: under another world's root /simA/aud
+        # such a path would be inside by spelling and outside by meaning)
+        names = {r.rsplit("/", 1)[-1] for r in AUDIO_ROOTS}
+        at = rs.randint(1, depth)
+        if parts[at - 1] not in names:
+            parts.insert(at, "..")
     stem = rs.choice(["rec", "ünï rec", "a b", "x.y", "日本", "0001",
                       "pa\u0301jaro", "Ω", "rec", "a b", "back\\slash",
                       "50%", "c#4", "~x", "t:1"])
